@@ -43,6 +43,18 @@ def in_unit(rng, kind, si_value, unit=None):
 
 
 # ------------------------------------------------------------------ generation
+def module_pair(rng, a, b):
+    """one mating in three: both gears get a module of the same magnitude, half of the time written in two different units (exactly
+    representable in both: the mating's equality test is tolerance based across units)"""
+    if rng.random() > 0.33:
+        return
+    mm = rng.choice([1.0, 2.0, 0.5, 4.0])
+    ua, ub = ('mm', 'mm') if rng.random() < 0.5 else rng.sample(['mm', 'cm', 'm', 'dm'], 2)
+    conv = {'mm': 1.0, 'cm': 0.1, 'dm': 0.01, 'm': 0.001}
+    a['opt'] = dict(a.get('opt', {}), module=['Length', mm * conv[ua], ua])
+    b['opt'] = dict(b.get('opt', {}), module=['Length', mm * conv[ub], ub])
+
+
 def gen_chain(rng, worm=None, max_stages=3, currents=None):
     """motor + stages.  Each element dict: kind, J, and how it is attached to the previous one."""
     currents = rng.random() < 0.7 if currents is None else currents
@@ -54,6 +66,11 @@ def gen_chain(rng, worm=None, max_stages=3, currents=None):
                  w0=in_unit(rng, 'AngularSpeed', w0), Tmax=in_unit(rng, 'Torque', Tmax),
                  i0=in_unit(rng, 'Current', i0) if currents else None,
                  imax=in_unit(rng, 'Current', imax) if currents else None)
+    if not currents and rng.random() < 0.3:        # exactly one of the two currents given: still a motor without current data
+        if rng.random() < 0.5:
+            motor['i0'] = in_unit(rng, 'Current', i0)
+        else:
+            motor['imax'] = in_unit(rng, 'Current', imax)
     elems = []
     n_stages = rng.randint(1, max_stages)
     kinds = []
@@ -83,11 +100,13 @@ def gen_chain(rng, worm=None, max_stages=3, currents=None):
             z1, z2 = rng.randint(10, 40), rng.randint(10, 90)
             elems.append(dict(kind='spur', z=z1, J=J(), link='joint'))
             elems.append(dict(kind='spur', z=z2, J=J(), link='gear', eff=rng.choice([1, 1.0, 0.95, 0.9, 0.8, rng.uniform(0.5, 1)])))
+            module_pair(rng, elems[-2], elems[-1])
         elif k == 'helical':
             z1, z2 = rng.randint(10, 40), rng.randint(10, 90)
             h = Q('Angle', rng.choice([10, 15, 20, 30, rng.uniform(1, 45)]), 'deg')
             elems.append(dict(kind='helical', z=z1, J=J(), helix=h, link='joint'))
             elems.append(dict(kind='helical', z=z2, J=J(), helix=h, link='gear', eff=rng.choice([1, 0.97, 0.9, rng.uniform(0.5, 1)])))
+            module_pair(rng, elems[-2], elems[-1])
         elif k in ('worm', 'wheelworm'):
             pa = rng.choice([14.5, 20, 25, 30])
             hmax = {14.5: 15, 20: 25, 25: 35, 30: 45}[pa]
@@ -123,7 +142,11 @@ def gen_time(rng):
         Tv = dtv * n
     else:
         Tv = float(f'{m * n}e{exp10}')
-    return Q('TimeInterval', dtv, u), Q('TimeInterval', Tv, u), n
+    Tq = Q('TimeInterval', Tv, u)
+    if rng.random() < 0.2:                          # the simulation time written in another unit than the step
+        u2 = rng.choice([x for x in ['sec', 'ms', 'min', 'hour'] if x != u])
+        Tq = Q('TimeInterval', Tv * S.ffactor('Time', u) / S.ffactor('Time', u2), u2)
+    return Q('TimeInterval', dtv, u), Tq, n
 
 
 def gen_scenario(rng, flavour='plain'):
@@ -148,7 +171,7 @@ def gen_scenario(rng, flavour='plain'):
     sc['spd0'] = in_unit(rng, 'AngularSpeed', rng.choice([0.0, 0.0, rng.uniform(-1, 1) * w0_si / 20]))
     ops = []
     n_el = len(sc['elems']) + 1
-    has_cur = m['i0'] is not None
+    has_cur = m['i0'] is not None and m['imax'] is not None
 
     def const_rule(start, dur, v=None):
         tu = rng.choice(S.units('Time'))
@@ -205,8 +228,9 @@ def gen_scenario(rng, flavour='plain'):
     c = ctl()
     if rng.random() < 0.25 and flavour in ('lock', 'control', 'schedule'):
         ops.append(['setpwm', rng.choice([0, -1, 0.5, -0.5, 1, 0.0])])
-    ops.append(['run', dt, T, c, stop()])
-    if flavour in ('schedule', 'lock', 'rules') or rng.random() < 0.3:
+    st0 = stop()
+    ops.append(['run', dt, T, c, st0])
+    if flavour in ('schedule', 'lock', 'rules', 'stop') or rng.random() < 0.3:
         for _ in range(rng.randint(1, 3)):
             k = rng.random() if flavour != 'rules' else rng.uniform(0.3, 0.8)
             if k < 0.5:                                    # continuation, maybe in another unit / other step
@@ -215,11 +239,15 @@ def gen_scenario(rng, flavour='plain'):
                     dt2 = Q('TimeInterval', dt[1] * S.ffactor('Time', dt[2]) / S.ffactor('Time', u2), u2)
                     n2 = rng.randint(2, 12)
                     T2 = Q('TimeInterval', dt2[1] * n2, u2)
+                    if rng.random() < 0.3:
+                        u3 = rng.choice([x for x in S.units('Time') if x != u2])
+                        T2 = Q('TimeInterval', T2[1] * S.ffactor('Time', u2) / S.ffactor('Time', u3), u3)
                 else:
                     dt2, T2, _ = gen_time(rng)
                 if rng.random() < 0.3:
                     ops.append(['setpwm', rng.choice([0, -1, 0.5, 1, -0.3])])
-                ops.append(['run', dt2, T2, c if rng.random() < 0.8 else ctl(), stop()])
+                # the same stop condition (the same object: see run_impl) is often handed to the continuation
+                ops.append(['run', dt2, T2, c if rng.random() < 0.8 else ctl(), st0 if (st0 is not None and rng.random() < 0.6) else stop()])
             elif k < 0.8:
                 ops.append(['reset'])
                 if rng.random() < (0.3 if flavour != 'rules' else 0.7):
@@ -230,7 +258,7 @@ def gen_scenario(rng, flavour='plain'):
                     ops.append(['newsolver'])
                 if rng.random() < 0.3:
                     ops.append(['setinit', sc['pos0'], sc['spd0']])
-                ops.append(['run', dt, T, c, None])
+                ops.append(['run', dt, T, c, st0 if (st0 is not None and rng.random() < 0.5) else None])
             else:
                 ops.append(['newsolver'])
                 dt2, T2, _ = gen_time(rng)
@@ -253,7 +281,9 @@ def build(sc):
     m = sc['motor']
     kw = {}
     if m['i0'] is not None:
-        kw = dict(no_load_electric_current=mkq(m['i0']), maximum_electric_current=mkq(m['imax']))
+        kw['no_load_electric_current'] = mkq(m['i0'])
+    if m['imax'] is not None:
+        kw['maximum_electric_current'] = mkq(m['imax'])
     motor = DCMotor(name='motor', inertia_moment=mkq(m['J']), no_load_speed=mkq(m['w0']), maximum_torque=mkq(m['Tmax']), **kw)
     els = [motor]
     for i, e in enumerate(sc['elems']):
@@ -262,13 +292,13 @@ def build(sc):
         if k == 'fly':
             o = Flywheel(name=name, inertia_moment=mkq(e['J']))
         elif k == 'spur':
-            o = SpurGear(name=name, n_teeth=e['z'], inertia_moment=mkq(e['J']), **e.get('opt', {}))
+            o = SpurGear(name=name, n_teeth=e['z'], inertia_moment=mkq(e['J']), **optkw(e))
         elif k == 'helical':
-            o = HelicalGear(name=name, n_teeth=e['z'], inertia_moment=mkq(e['J']), helix_angle=mkq(e['helix']), **e.get('opt', {}))
+            o = HelicalGear(name=name, n_teeth=e['z'], inertia_moment=mkq(e['J']), helix_angle=mkq(e['helix']), **optkw(e))
         elif k == 'worm':
-            o = WormGear(name=name, n_starts=e['starts'], inertia_moment=mkq(e['J']), helix_angle=mkq(e['helix']), pressure_angle=mkq(e['pa']), **e.get('opt', {}))
+            o = WormGear(name=name, n_starts=e['starts'], inertia_moment=mkq(e['J']), helix_angle=mkq(e['helix']), pressure_angle=mkq(e['pa']), **optkw(e))
         elif k == 'wheel':
-            o = WormWheel(name=name, n_teeth=e['z'], inertia_moment=mkq(e['J']), helix_angle=mkq(e['helix']), pressure_angle=mkq(e['pa']), **e.get('opt', {}))
+            o = WormWheel(name=name, n_teeth=e['z'], inertia_moment=mkq(e['J']), helix_angle=mkq(e['helix']), pressure_angle=mkq(e['pa']), **optkw(e))
         prev = els[-1]
         if e['link'] == 'joint':
             add_fixed_joint(master=prev, slave=o)
@@ -282,6 +312,10 @@ def build(sc):
     els[-1].angular_position = mkq(sc['pos0'])
     els[-1].angular_speed = mkq(sc['spd0'])
     return pt, els
+
+
+def optkw(e):
+    return {k: (mkq(v) if isinstance(v, list) and len(v) == 3 and isinstance(v[0], str) else v) for k, v in e.get('opt', {}).items()}
 
 
 def make_control(pt, els, rules):
@@ -407,6 +441,7 @@ def run_impl(sc, timeout=20, keep_objects=False):
                         seen.add(x)
                         res['oracle'].append(['LSquare', x, x ** 2])
         ctl_cache = {}
+        stop_cache = {}
         try:
             for op in sc['ops']:
                 if op[0] == 'run':
@@ -418,7 +453,10 @@ def run_impl(sc, timeout=20, keep_objects=False):
                     if op[3]:
                         lim_rules += [r for r in op[3] if r['r'] == 'lim']
                     try:
-                        solver.run(time_discretization=mkq(op[1]), simulation_time=mkq(op[2]), motor_control=ctl, stop_condition=make_stop(els, op[4]))
+                        skey = _json.dumps(op[4], sort_keys=True, default=str)
+                        if skey not in stop_cache:           # the same stop condition is the same object across runs, as in a user script
+                            stop_cache[skey] = make_stop(els, op[4])
+                        solver.run(time_discretization=mkq(op[1]), simulation_time=mkq(op[2]), motor_control=ctl, stop_condition=stop_cache[skey])
                     finally:
                         harvest()
                 elif op[0] == 'reset':
